@@ -29,6 +29,13 @@ def run(ctx):
             mode = rng.choice([1, 2])
             cases.append(commgen.gen_case(rng, "t%d_%d" % (P, k), P, mode=mode, ppn=ppn, ordering=ordering))
             ctx.count("layout_ppn%d_ord%d" % (ppn, ordering))
+        if P >= 6:
+            # directed: 3-step package on >= 3 nodes where every process of a node asks for the same columns of several remote
+            # nodes (duplicates in every per-node segment of the inter-node receive list)
+            for k in range(ctx.scale(8, 24)):
+                ppn = rng.choice([d for d in (2, 3) if P % d == 0 and P // d >= 3] or [2])
+                cases.append(commgen.gen_case(rng, "t%d_s%d" % (P, k), P, mode=1, ppn=ppn, ordering=rng.choice([0, 1, 2]), force_shared=True))
+                ctx.count("directed_shared_columns_multinode")
         commgen.run_and_judge(ctx, cases, P, tag="tap")
     # PPN not dividing the process count: known finding (construction deadlocks / sends to a non-existent rank)
     fc = [0, 3, 5, 9]; cols = [[3, 8], [0, 1, 5], [2, 4]]
